@@ -292,6 +292,11 @@ func vnetExec(ops []string, o *vu.Out, prop int) {
 		o.Fail("net-hang", "case did not finish within 120 s of wall-clock time")
 		return
 	}
+	for _, f := range res.fails {
+		if f[0] == "net-no-progress" {
+			vnetHung = true // the verdict is already a failure; later cases would each cost the full budget
+		}
+	}
 	o.Op("ev begin", "ok")
 	for _, e := range res.events {
 		o.Op(e, "ok")
@@ -568,7 +573,7 @@ func vnetRun(t *testing.T, sc vnetScenario, prop int, res *vnetResult) {
 	}
 	idle := 0
 	completed := false
-	for step := 0; step < 20000; step++ {
+	for step := 0; step < 8000; step++ {
 		deliverDue()
 		progress := false
 		// accept peer-initiated streams
